@@ -172,7 +172,20 @@ pub fn vocab_cases(em: &mut Em, rng: &mut Rng) {
                     ctx.require(*f <= minkept, "cap_keeps_most_frequent", class, || format!("{:?} (frequency {}) dropped while an entry of frequency {} is kept", w, f, minkept));
                 }
             }
-            format!("ok n={} vocab={}", v.len(), list(v.iter(), |e| format!("{}={}", e.0.iter().map(|t| t.to_string()).collect::<Vec<_>>().join("."), e.1)))
+            // the statement promises the same vocabulary on every run (checked above over 8 fits), not which
+            // of several words of equal document frequency survive the cut: when the cut falls inside a group
+            // of equal frequencies only the words above that frequency and the number kept at it are compared
+            let show = |l: &[&(Vec<usize>, usize, usize)]| list(l.iter(), |e| format!("{}={}", e.0.iter().map(|t| t.to_string()).collect::<Vec<_>>().join("."), e.1));
+            if tie_cut {
+                let mut fs: Vec<usize> = eligible.iter().map(|e| e.1).collect();
+                fs.sort_by(|x, y| y.cmp(x));
+                let f = fs[cap.unwrap()];
+                let above: Vec<&(Vec<usize>, usize, usize)> = v.iter().filter(|e| e.1 > f).collect();
+                format!("ok n={} vocab={} tie={}x{}", v.len(), show(&above), f, v.iter().filter(|e| e.1 == f).count())
+            } else {
+                let all: Vec<&(Vec<usize>, usize, usize)> = v.iter().collect();
+                format!("ok n={} vocab={} tie=-", v.len(), show(&all))
+            }
         });
     }
 }
@@ -853,6 +866,226 @@ fn it_large_regression(d: &Data) -> Sections {
     out
 }
 
+/// more than 10 000 rows: a parallel path gated on the number of samples would be taken
+fn it_huge_rows(d: &Data) -> Sections {
+    use linfa_clustering::{GaussianMixtureModel, KMeans};
+    let mut out = vec![];
+    let n = d.huge.nrows();
+    let ds = DatasetBase::from(d.huge.clone());
+    let m = KMeans::params(3).max_n_iterations(4).n_runs(2).tolerance(1e-3).fit(&ds).unwrap();
+    out.push(sec("kmeans_centroids", f64s(m.centroids().iter())));
+    out.push(sec("kmeans_inertia", f64s([m.inertia()].iter())));
+    let h32 = d.huge.mapv(|v| v as f32);
+    let m32 = KMeans::params(3).max_n_iterations(3).n_runs(1).tolerance(1e-3).fit(&DatasetBase::from(h32)).unwrap();
+    out.push(sec("kmeans_f32_centroids", f32s(m32.centroids().iter())));
+    out.push(sec("kmeans_f32_inertia", f32s([m32.inertia()].iter())));
+    match KMeans::params(3).tolerance(1e-3).fit_with(None, &ds) {
+        Ok(mi) => out.push(sec("kmeans_incremental_state", state(&mi))),
+        Err(linfa_clustering::IncrKMeansError::NotConverged(mi)) => out.push(sec("kmeans_incremental_state", state(&mi))),
+        Err(_) => out.push(sec("kmeans_incremental_error", vec![1])),
+    }
+    match GaussianMixtureModel::params(2).n_runs(1).max_n_iterations(4).tolerance(1e-2).fit(&ds) {
+        Ok(g) => {
+            out.push(sec("gmm_means", f64s(g.means().iter())));
+            out.push(sec("gmm_weights", f64s(g.weights().iter())));
+            out.push(sec("gmm_covariances", f64s(g.covariances().iter())));
+        }
+        Err(e) => out.push(sec("gmm_error", format!("{:?}", e).into_bytes())),
+    }
+    let y: Array1<f64> = Array1::from_shape_fn(n, |i| d.huge[[i, 0]] * 0.5 - d.huge[[i, 1]] * 1.5 + d.huge[[i, 2]] * 0.25 + (i % 11) as f64 * 0.1);
+    let dr = Dataset::new(d.huge.clone(), y.clone());
+    if let Ok(m) = linfa_linear::LinearRegression::default().fit(&dr) {
+        out.push(sec("ols_params", f64s(m.params().iter())));
+        out.push(sec("ols_intercept", f64s([m.intercept()].iter())));
+    }
+    if let Ok(m) = linfa_elasticnet::ElasticNet::params().penalty(0.1).l1_ratio(0.5).max_iterations(50).fit(&dr) {
+        out.push(sec("elasticnet_hyperplane", f64s(m.hyperplane().iter())));
+        out.push(sec("elasticnet_duality_gap", f64s([m.duality_gap()].iter())));
+    }
+    let yc: Array1<usize> = y.mapv(|v| if v > 1.0 { 2 } else if v > -1.0 { 1 } else { 0 });
+    let g = linfa_bayes::GaussianNb::params().fit(&Dataset::new(d.huge.clone(), yc)).unwrap();
+    out.push(sec("gnb_state", state(&g)));
+    {
+        use linfa_preprocessing::linear_scaling::LinearScaler;
+        let s = LinearScaler::standard().fit(&ds).unwrap();
+        out.push(sec("scaler_offsets", f64s(s.offsets().iter())));
+        out.push(sec("scaler_scales", f64s(s.scales().iter())));
+    }
+    let corr = dr.pearson_correlation();
+    out.push(sec("pearson", f64s(corr.get_coeffs().iter())));
+    out
+}
+
+/// 12 features, 2 (and 1) components: `dim >= 5 * num`, the iterated (LOBPCG) branch of `leading_svd`
+fn it_pca_iterated(d: &Data) -> Sections {
+    use linfa_reduction::Pca;
+    let ds = DatasetBase::from(d.wide.clone());
+    let mut out = vec![];
+    for (nm, num, whiten) in [("two", 2usize, false), ("one", 1, false), ("two_whitened", 2, true)] {
+        match Pca::params(num).whiten(whiten).fit(&ds) {
+            Ok(m) => {
+                out.push(sec(&format!("{}_state", nm), state(&m)));
+                out.push(sec(&format!("{}_components", nm), f64s(m.components().iter())));
+                out.push(sec(&format!("{}_singular_values", nm), f64s(m.singular_values().iter())));
+                out.push(sec(&format!("{}_embedding", nm), f64s(m.predict(&d.wide).iter())));
+            }
+            Err(e) => out.push(sec(&format!("{}_error", nm), format!("{:?}", e).into_bytes())),
+        }
+    }
+    out
+}
+
+/// every feature column present twice, many rows: equal split scores between features at every
+/// node and enough work per feature for a parallel split search to finish out of order
+fn it_tree_tied_features(d: &Data) -> Sections {
+    use linfa_trees::{DecisionTree, SplitQuality};
+    let mut out = vec![];
+    let ds = Dataset::new(d.dup.clone(), d.dup_y.clone());
+    let m = DecisionTree::params().split_quality(SplitQuality::Gini).max_depth(Some(5)).fit(&ds).unwrap();
+    out.push(sec("gini_state", state(&m)));
+    out.push(sec("gini_features", usizes(m.features().iter())));
+    out.push(sec("gini_feature_importance", f64s(m.feature_importance().iter())));
+    let dw = Dataset::new(d.dup.clone(), d.dup_y.clone()).with_weights(d.dup_w.clone());
+    let mw = DecisionTree::params().split_quality(SplitQuality::Entropy).max_depth(Some(4)).fit(&dw).unwrap();
+    out.push(sec("entropy_weighted_state", state(&mw)));
+    out.push(sec("entropy_weighted_predict", usizes(mw.predict(&d.dup).iter())));
+    out
+}
+
+/// weighted trees with three to five classes and weights that are not dyadic: the weight totals
+/// of a node are f32 sums whose value depends on the order of the classes
+fn it_tree_weighted_multiclass(d: &Data) -> Sections {
+    use linfa_trees::{DecisionTree, SplitQuality};
+    let mut out = vec![];
+    let n = d.lat_y.len();
+    for v in 0..6usize {
+        let nc = 3 + v % 3;
+        let y = Array1::from_shape_fn(n, |i| (d.lat_y[i] + i * (v + 1) + (i / 3) * v) % nc);
+        let w = Array1::from_shape_fn(n, |i| [0.3f32, 0.7, 0.1, 1.1, 0.9, 0.2, 1.7][(i * (v + 2) + v) % 7]);
+        let ds = Dataset::new(d.lat.clone(), y).with_weights(w);
+        let q = if v % 2 == 0 { SplitQuality::Entropy } else { SplitQuality::Gini };
+        let m = DecisionTree::params().split_quality(q).max_depth(Some(4)).fit(&ds).unwrap();
+        out.push(sec(&format!("variant_{}_state", v), state(&m)));
+        out.push(sec(&format!("variant_{}_predict", v), usizes(m.predict(&d.qlat).iter())));
+    }
+    let nd = d.dup_y.len();
+    let y5 = Array1::from_shape_fn(nd, |i| (d.dup_y[i] + (i % 5)) % 5);
+    let m = DecisionTree::params().split_quality(SplitQuality::Gini).max_depth(Some(4)).fit(&Dataset::new(d.dup.clone(), y5).with_weights(d.dup_w.clone())).unwrap();
+    out.push(sec("many_rows_state", state(&m)));
+    out
+}
+
+/// f32 instantiations of the estimators `f32_suite` lacks, and the L1 metric in f32
+fn it_f32_more(d: &Data) -> Sections {
+    let mut out = vec![];
+    let b32 = d.blobs.mapv(|v| v as f32);
+    let q32 = d.q.mapv(|v| v as f32);
+    let rx32 = d.rx.mapv(|v| v as f32);
+    let ry32 = d.ry.mapv(|v| v as f32);
+    let ry2_32 = d.ry2.mapv(|v| v as f32);
+    let counts32 = d.counts.mapv(|v| v as f32);
+    let small32 = d.small.mapv(|v| v as f32);
+    let n = b32.nrows().min(400);
+    let head = b32.slice(ndarray::s![..n, ..]).to_owned();
+    {
+        use linfa_ica::fast_ica::{FastIca, GFunc};
+        match FastIca::params().ncomponents(2).gfunc(GFunc::Logcosh(1.0)).max_iter(40).random_state(42).fit(&DatasetBase::from(head.clone())) {
+            Ok(m) => out.push(sec("fast_ica_sources", f32s(m.predict(&q32).iter()))),
+            Err(e) => out.push(sec("fast_ica_error", format!("{:?}", e).into_bytes())),
+        }
+    }
+    {
+        use linfa_ftrl::Ftrl;
+        match Ftrl::params().alpha(0.05).beta(1.0).l1_ratio(0.01).l2_ratio(0.5).fit_with(None, &Dataset::new(rx32.clone(), d.rb.clone())) {
+            Ok(m) => {
+                out.push(sec("ftrl_z", f32s(m.z().iter())));
+                out.push(sec("ftrl_n", f32s(m.n().iter())));
+            }
+            Err(e) => out.push(sec("ftrl_error", format!("{:?}", e).into_bytes())),
+        }
+    }
+    {
+        use linfa_pls::PlsRegression;
+        match PlsRegression::params(2).scale(true).max_iterations(100).fit(&Dataset::new(rx32.clone(), ry2_32.clone())) {
+            Ok(m) => out.push(sec("pls_coefficients", f32s(m.coefficients().iter()))),
+            Err(e) => out.push(sec("pls_error", format!("{:?}", e).into_bytes())),
+        }
+    }
+    match linfa_svm::Svm::<f32, f32>::params().eps(1e-3).c_svr(10.0, Some(0.1)).linear_kernel().fit(&Dataset::new(rx32.clone(), ry32.clone())) {
+        Ok(m) => {
+            out.push(sec("svr_alpha", f32s(m.alpha.iter())));
+            out.push(sec("svr_predict", f32s(m.predict(&rx32).iter())));
+        }
+        Err(e) => out.push(sec("svr_error", format!("{:?}", e).into_bytes())),
+    }
+    {
+        use linfa_clustering::Optics;
+        match Optics::params(3).tolerance(2.0f32).transform(small32.view()) {
+            Ok(an) => {
+                let mut v = vec![];
+                for s in an.iter() {
+                    v.extend((s.index() as u64).to_le_bytes());
+                    v.extend(s.reachability_distance().unwrap_or(f32::INFINITY).to_bits().to_le_bytes());
+                    v.extend(s.core_distance().unwrap_or(f32::INFINITY).to_bits().to_le_bytes());
+                }
+                out.push(sec("optics_order", v));
+            }
+            Err(e) => out.push(sec("optics_error", format!("{:?}", e).into_bytes())),
+        }
+    }
+    match linfa_bayes::MultinomialNb::params().fit(&Dataset::new(counts32.clone(), d.lat_y.clone())) {
+        Ok(m) => {
+            out.push(sec("multinomial_nb_state", state(&m)));
+            out.push(sec("multinomial_nb_predict", usizes(m.predict(&counts32).iter())));
+        }
+        Err(e) => out.push(sec("multinomial_nb_error", format!("{:?}", e).into_bytes())),
+    }
+    {
+        use linfa_reduction::random_projection::SparseRandomProjection;
+        match SparseRandomProjection::<f32>::params().target_dim(2).fit(&DatasetBase::from(head.clone())) {
+            Ok(g) => out.push(sec("sparse_projection", f32s(g.transform(&q32).iter()))),
+            Err(e) => out.push(sec("sparse_projection_error", format!("{:?}", e).into_bytes())),
+        }
+    }
+    {
+        use linfa_clustering::{GaussianMixtureModel, GmmInitMethod, KMeans};
+        use rand_xoshiro::rand_core::SeedableRng;
+        match GaussianMixtureModel::params(2).init_method(GmmInitMethod::Random).n_runs(1).max_n_iterations(12).fit(&DatasetBase::from(head.clone())) {
+            Ok(g) => out.push(sec("gmm_random_means", f32s(g.means().iter()))),
+            Err(e) => out.push(sec("gmm_random_error", format!("{:?}", e).into_bytes())),
+        }
+        let rng = rand_xoshiro::Xoshiro256Plus::seed_from_u64(11);
+        match KMeans::params_with(3, rng, linfa_nn::distance::L1Dist).max_n_iterations(10).n_runs(1).fit(&DatasetBase::from(b32.clone())) {
+            Ok(m) => {
+                out.push(sec("kmeans_l1_centroids", f32s(m.centroids().iter())));
+                out.push(sec("kmeans_l1_inertia", f32s([m.inertia()].iter())));
+            }
+            Err(e) => out.push(sec("kmeans_l1_error", format!("{:?}", e).into_bytes())),
+        }
+    }
+    out
+}
+
+/// the cross-validation helpers (scores collected per model over the folds)
+fn it_cross_validation(d: &Data) -> Sections {
+    use linfa_elasticnet::ElasticNet;
+    let mut out = vec![];
+    let mut ds = Dataset::new(d.rx.clone(), d.ry.clone());
+    let models: Vec<_> = [0.1f64, 0.5, 1.0].iter().map(|r| ElasticNet::params().penalty(0.2).l1_ratio(*r)).collect();
+    let r: Result<Array1<f64>, linfa_elasticnet::ElasticNetError> = ds.cross_validate_single(4, &models, |prediction, truth| prediction.r2(&truth));
+    match r {
+        Ok(v) => out.push(sec("cross_validate_single_r2", f64s(v.iter()))),
+        Err(e) => out.push(sec("cross_validate_single_error", format!("{:?}", e).into_bytes())),
+    }
+    let mut ds2 = Dataset::new(d.rx.clone(), d.ry.clone());
+    let p = ElasticNet::params().penalty(0.1).l1_ratio(0.5);
+    for (i, (m, val)) in ds2.iter_fold(3, |v| p.fit(v).unwrap()).enumerate() {
+        out.push(sec(&format!("iter_fold_{}_hyperplane", i), f64s(m.hyperplane().iter())));
+        out.push(sec(&format!("iter_fold_{}_validation", i), f64s(val.records().iter())));
+    }
+    out
+}
+
 pub fn items() -> Vec<Item> {
     vec![
         Item { name: "vectorizers_capped", parallel: false, f: it_vectorizers_capped },
@@ -872,6 +1105,12 @@ pub fn items() -> Vec<Item> {
         Item { name: "kernels", parallel: false, f: it_kernels },
         Item { name: "serde_state", parallel: false, f: it_serde_state },
         Item { name: "large_regression", parallel: true, f: it_large_regression },
+        Item { name: "huge_rows", parallel: true, f: it_huge_rows },
+        Item { name: "pca_iterated", parallel: false, f: it_pca_iterated },
+        Item { name: "tree_tied_features", parallel: false, f: it_tree_tied_features },
+        Item { name: "tree_weighted_multiclass", parallel: false, f: it_tree_weighted_multiclass },
+        Item { name: "f32_more", parallel: true, f: it_f32_more },
+        Item { name: "cross_validation", parallel: false, f: it_cross_validation },
     ]
 }
 
@@ -886,7 +1125,7 @@ pub fn rng_clone_more(em: &mut Em, rng: &mut Rng) {
         let seed = rng.next();
         let dseed = rng.next() % 100000;
         let op = format!("#rng_clone_more seed={} data={}", seed, dseed);
-        em.case(op, |ctx| {
+        em.case_valid(op, "rng_clone_more", |ctx| {
             let mut r = Rng::new(dseed);
             let x = Array2::from_shape_fn((200, 4), |_| (r.unit() - 0.5) * 10.0);
             let x2 = Array2::from_shape_fn((150, 4), |_| (r.unit() - 0.5) * 6.0);
@@ -900,7 +1139,8 @@ pub fn rng_clone_more(em: &mut Em, rng: &mut Rng) {
                 let p = GaussianMixtureModel::params_with_rng(2, g.clone()).init_method(GmmInitMethod::Random).max_n_iterations(10).n_runs(1);
                 match (p.fit(&ds), p.fit(&ds2), p.fit(&ds)) {
                     (Ok(a), _, Ok(c)) => ctx.require(bits(a.means()) == bits(c.means()), "rng_cloned_per_fit", "est=gmm_random_init", || "one GMM parameter object (Random init) fitted on the same data twice gives different means".to_string()),
-                    _ => {}
+                    // an error must at least be the same both times (a fit that fails once and succeeds once is a difference)
+                    (a, _, c) => ctx.require(a.is_err() && c.is_err(), "rng_cloned_per_fit", "est=gmm_random_init", || "one GMM parameter object (Random init): the same data fitted twice succeed once and fail once".to_string()),
                 }
             }
             {
@@ -915,7 +1155,7 @@ pub fn rng_clone_more(em: &mut Em, rng: &mut Rng) {
                     let a = run(&ds);
                     let _ = run(&ds2);
                     let c = run(&ds);
-                    ctx.require(a == c, "rng_cloned_per_fit", &format!("est=kmeans_fit_with_{}", nm), || "one KMeans parameter object: fit_with(None, data) twice gives different centroids".to_string());
+                    ctx.require(a.is_some() && a == c, "rng_cloned_per_fit", &format!("est=kmeans_fit_with_{}", nm), || "one KMeans parameter object: fit_with(None, data) twice gives different centroids (or no model)".to_string());
                 }
             }
             {
